@@ -40,6 +40,8 @@ type schemaField struct {
 	Required bool   `json:"required"`
 	Code     int    `json:"code"`
 	Default  bool   `json:"default"`
+	Redact   bool   `json:"redact"`
+	NoLog    bool   `json:"nolog"`
 }
 
 type schemaStruct struct {
@@ -70,6 +72,8 @@ type field struct {
 	Required bool   ` + "`json:\"required\"`" + `
 	Code     int    ` + "`json:\"code\"`" + `
 	Default  bool   ` + "`json:\"default\"`" + `
+	Redact   bool   ` + "`json:\"redact\"`" + `
+	NoLog    bool   ` + "`json:\"nolog\"`" + `
 }
 type strct struct {
 	Name   string  ` + "`json:\"name\"`" + `
@@ -77,6 +81,8 @@ type strct struct {
 	Kind   string  ` + "`json:\"kind\"`" + `
 	Fields []field ` + "`json:\"fields\"`" + `
 }
+
+func has(a compile.Annotations, k string) bool { _, ok := a[k]; return ok }
 
 func main() {
 	out := map[string][]strct{}
@@ -97,7 +103,7 @@ func main() {
 				st.Kind = "union"
 			}
 			for _, fl := range s.Fields {
-				st.Fields = append(st.Fields, field{ID: int(fl.ID), Name: fl.Name, Required: fl.Required, Code: int(fl.Type.TypeCode()), Default: fl.Default != nil})
+				st.Fields = append(st.Fields, field{ID: int(fl.ID), Name: fl.Name, Required: fl.Required, Code: int(fl.Type.TypeCode()), Default: fl.Default != nil, Redact: has(fl.Annotations, "go.redact"), NoLog: has(fl.Annotations, "go.nolog")})
 			}
 			out[base] = append(out[base], st)
 		}
@@ -319,6 +325,9 @@ func (ii *InstInfo) addContracts(p *Program, cs *ContractSet, prop string) error
 	cs.Macros["unfoldHas"] = &Macro{Kind: "axiom", Params: []string{"a", "p", "id", "ty"}, Body: "hasField(a, p, id, ty) <==> (a[p] != 0 && ((a[p] == ty && be16at(a, p + 1) == id) || hasField(a, skipEnd(a, a[p], p + 3), id, ty)))"}
 	cs.Macros["unfoldList"] = &Macro{Kind: "axiom", Params: []string{"a", "t", "k", "q"}, Body: "listEnd(a, t, k, q) == ite(k <= 0, q, listEnd(a, t, k - 1, skipEnd(a, t, q)))"}
 	cs.Macros["unfoldMap"] = &Macro{Kind: "axiom", Params: []string{"a", "kt", "vt", "k", "q"}, Body: "mapEnd(a, kt, vt, k, q) == ite(k <= 0, q, mapEnd(a, kt, vt, k - 1, skipEnd(a, vt, skipEnd(a, kt, q))))"}
+	if prop == "C15" {
+		return ii.addRedactionContracts(p, cs, prop)
+	}
 	var fns []*ssa.Function
 	for f := range p.allFns {
 		pk := fnPkg(f)
@@ -497,6 +506,125 @@ func (ii *InstInfo) addPresence(f *ssa.Function, ct *Contract) {
 		ct.Ensures = append(ct.Ensures, cl("ensures", "required_"+fl.Name, fmt.Sprintf("err == nil ==> hasField(rin(sr), p0, %d, %d)", fl.ID, fl.Code)))
 		ii.presence++
 	}
+}
+
+// addRedactionContracts (C15): for every emitted struct-like type with fields
+// annotated go.redact / go.nolog in the compiled schema, String(), Error() and
+// MarshalLogObject() get a two-run non-interference contract: the result (and
+// the sequence of calls made on the zap encoder) does not depend on the
+// contents of those fields. Field kinds whose contents cannot be named as a
+// location (containers, structs) are listed as outside reach.
+func (ii *InstInfo) addRedactionContracts(p *Program, cs *ContractSet, prop string) error {
+	var fns []*ssa.Function
+	for f := range p.allFns {
+		pk := fnPkg(f)
+		if pk == nil || !strings.HasPrefix(pk.Path(), "example.com/corpus/") || len(f.Blocks) == 0 || f.Signature.Recv() == nil {
+			continue
+		}
+		switch f.Name() {
+		case "String", "Error", "MarshalLogObject":
+			fns = append(fns, f)
+		}
+	}
+	sort.Slice(fns, func(i, j int) bool { return fns[i].String() < fns[j].String() })
+	for _, f := range fns {
+		pt, ok := f.Signature.Recv().Type().(*types.Pointer)
+		if !ok {
+			continue
+		}
+		named, ok := pt.Elem().(*types.Named)
+		if !ok {
+			continue
+		}
+		stt, ok := named.Underlying().(*types.Struct)
+		if !ok {
+			continue
+		}
+		pkgBase := filepath.Base(named.Obj().Pkg().Path())
+		fields, ok := ii.structs[pkgBase][normName(named.Obj().Name())]
+		if !ok || stt.NumFields() != len(fields) {
+			continue
+		}
+		recv := f.Params[0].Name()
+		ct := newContract(f, prop)
+		for i, fl := range fields {
+			secret := fl.Redact || (fl.NoLog && f.Name() == "MarshalLogObject")
+			if !secret {
+				continue
+			}
+			gf := stt.Field(i)
+			loc := recv + "." + gf.Name()
+			switch tt := gf.Type().Underlying().(type) {
+			case *types.Basic:
+				ct.Secrets = append(ct.Secrets, cl("secret", "", loc))
+			case *types.Pointer:
+				if _, ok := tt.Elem().Underlying().(*types.Basic); ok {
+					ct.Secrets = append(ct.Secrets, cl("secret", "", "*"+loc))
+					if fl.NoLog && f.Name() == "MarshalLogObject" {
+						ct.Secrets = append(ct.Secrets, cl("secret", "", loc))
+					}
+				} else {
+					ii.skipped = append(ii.skipped, fmt.Sprintf("%s.%s: redacted field of kind %s cannot be named as a secret location", named.Obj().Name(), gf.Name(), gf.Type()))
+				}
+			case *types.Slice:
+				if b, ok := tt.Elem().Underlying().(*types.Basic); ok && b.Kind() == types.Uint8 {
+					ct.Secrets = append(ct.Secrets, cl("secret", "", "elems("+loc+")"))
+					if fl.NoLog && f.Name() == "MarshalLogObject" {
+						ct.Secrets = append(ct.Secrets, cl("secret", "", loc))
+					}
+				} else {
+					ii.skipped = append(ii.skipped, fmt.Sprintf("%s.%s: redacted field of kind %s cannot be named as a secret location", named.Obj().Name(), gf.Name(), gf.Type()))
+				}
+			default:
+				ii.skipped = append(ii.skipped, fmt.Sprintf("%s.%s: redacted field of kind %s cannot be named as a secret location", named.Obj().Name(), gf.Name(), gf.Type()))
+			}
+		}
+		if len(ct.Secrets) == 0 {
+			continue
+		}
+		// separation: a secret pointee / backing array is not shared with another field of the value
+		for i, fl := range fields {
+			secret := fl.Redact || (fl.NoLog && f.Name() == "MarshalLogObject")
+			if !secret {
+				continue
+			}
+			gi := stt.Field(i)
+			for j := 0; j < stt.NumFields(); j++ {
+				if j == i {
+					continue
+				}
+				gj := stt.Field(j)
+				switch ti := gi.Type().Underlying().(type) {
+				case *types.Pointer:
+					if tj, ok := gj.Type().Underlying().(*types.Pointer); ok && skey(ti.Elem()) == skey(tj.Elem()) {
+						ct.Requires = append(ct.Requires, cl("requires", "", fmt.Sprintf("%s == nil || %s.%s == nil || %s.%s != %s.%s", recv, recv, gj.Name(), recv, gj.Name(), recv, gi.Name())))
+					}
+				case *types.Slice:
+					if tj, ok := gj.Type().Underlying().(*types.Slice); ok && skey(ti.Elem()) == skey(tj.Elem()) {
+						ct.Requires = append(ct.Requires, cl("requires", "", fmt.Sprintf("%s == nil || ref(%s.%s) == 0 || ref(%s.%s) != ref(%s.%s)", recv, recv, gj.Name(), recv, gj.Name(), recv, gi.Name())))
+					}
+				}
+			}
+		}
+		if f.Name() == "String" {
+			// Error() returns String(): executed in place there
+			ct.Inline = true
+		}
+		if f.Name() == "MarshalLogObject" && len(f.Params) > 1 {
+			enc := f.Params[1].Name()
+			ct.NiOuts = append(ct.NiOuts, cl("niout", "", "zlog("+enc+")"), cl("niout", "", "result0"))
+		}
+		if _, dup := cs.ByFunc[ct.Func]; dup {
+			continue
+		}
+		cs.ByFunc[ct.Func] = ct
+		cs.Order = append(cs.Order, ct)
+		ii.funcs++
+	}
+	if ii.funcs == 0 {
+		return fmt.Errorf("no redacted field found in the regenerated corpus")
+	}
+	return nil
 }
 
 func firstStreamCall(f *ssa.Function) string {
